@@ -804,16 +804,15 @@ static void convert_brace(Chunk *br)
             tmp->SetNlCount(tmp->GetNlCount() - 1);
             LOG_FMT(LBRDEL, "%s(%d): tmp new line count is %zu\n",
                     __func__, __LINE__, tmp->GetNlCount());
-            // the line breaks before and after a removed closing brace are one
-            // run now: keep them in one chunk, the blank line limits count per chunk
-            Chunk *before = br->GetPrev();
+            // the line breaks before and after a removed brace are one run
+            // now: keep them in one chunk, the blank line limits count per chunk
+            Chunk *other = br->Is(CT_VBRACE_CLOSE) ? br->GetPrev() : br->GetNext();
 
-            if (  br->Is(CT_VBRACE_CLOSE)
-               && before->Is(CT_NEWLINE)
-               && before->SafeToDeleteNl())
+            if (  other->Is(CT_NEWLINE)
+               && other->SafeToDeleteNl())
             {
-               tmp->SetNlCount(tmp->GetNlCount() + before->GetNlCount());
-               Chunk::Delete(before);
+               tmp->SetNlCount(tmp->GetNlCount() + other->GetNlCount());
+               Chunk::Delete(other);
             }
          }
       }
